@@ -292,10 +292,10 @@ theorem validate_outputs (declared stored : List Bytes) :
   constructor
   · intro h
     simp only [Bool.and_eq_true, beq_iff_eq] at h
-    exact (sortBytes_perm declared).symm.trans (h.2 ▸ sortBytes_perm stored)
+    exact (sortBytesT_perm declared).symm.trans (h.2 ▸ sortBytesT_perm stored)
   · intro h
     simp only [Bool.and_eq_true, beq_iff_eq]
-    exact ⟨h.length_eq, sortBytes_eq_of_perm h⟩
+    exact ⟨h.length_eq, sortBytesT_eq_of_perm h⟩
 
 example : validateOutputs [[2], [1], [1]] [[1], [2], [1]] = true ∧ validateOutputs [[1], [1]] [[1], [2]] = false := by decide
 
